@@ -45,7 +45,20 @@ func verifHasNonASCII(s string) bool {
 // regex literals, quantified over sources so that only producible values are demanded
 func VerifC20Regex() {
 	n := verifIntRange(0, verifBound(3, 4))
+	verifRegexRoundTrip(verifString(n))
+}
+
+// longer regex bodies over the bytes that matter for escaping: backslash, slash, =, a letter
+func VerifC20RegexEscapes() {
+	n := verifIntRange(0, verifBound(6, 7))
 	body := verifString(n)
+	for i := 0; i < len(body); i++ {
+		verifAssume(body[i] == '\\' || body[i] == '/' || body[i] == '=' || body[i] == 'a')
+	}
+	verifRegexRoundTrip(body)
+}
+
+func verifRegexRoundTrip(body string) {
 	src := append(append([]byte("/"), body...), '/')
 	l := lexer.NewLexer(src)
 	_, first, _ := l.Scan()
@@ -266,13 +279,18 @@ func verifSignChain(t *verifTree) bool {
 	return verifSignChain(t.l) || verifSignChain(t.m) || verifSignChain(t.r)
 }
 
-// unary chains and token-adjacency hazards
+// unary chains and token-adjacency hazards; the innermost operand may itself start or end with ++ / --
 func VerifC20Adjacency() {
 	un := []string{"", "-", "+", "!"}
 	bin := []string{"+", "-", "*", "/", " ", "<", "~", "^", "%"}
-	u1, u2, u3 := un[verifIntRange(0, 3)], un[verifIntRange(0, 3)], un[verifIntRange(1, 3)]
+	operands := []string{"x", "--x", "++x", "x--", "x++", "$1", "--$1", "arr[1]", "++arr[1]", "2", "-2"}
+	u1, u2, u3 := un[verifIntRange(0, 3)], un[verifIntRange(0, 3)], un[verifIntRange(0, 3)]
 	b := bin[verifIntRange(0, len(bin)-1)]
-	right := u1 + " " + u2 + " " + u3 + " x"
+	operand := operands[verifIntRange(0, len(operands)-1)]
+	right := u1 + " " + u2 + " " + u3 + " " + operand
+	if u1 == "" && u2 == "" && u3 == "" && (b == " " && (operand[0] == '-' || operand[0] == '+')) {
+		right = "(" + right + ")"
+	}
 	if b == " " && (u1 == "-" || u1 == "+" || (u1 == "" && (u2 == "-" || u2 == "+")) ) {
 		right = "(" + right + ")"
 	}
